@@ -223,15 +223,15 @@ func writeEvidence(e *Engine, verifDir string, res *PropResult, tier string, see
 	}
 	meta := propMetas[res.Property]
 	cov := map[string]any{
-		"explanation": meta.Explanation + "  NOT DECIDED (no static argument in reach): " + meta.NotDecided,
-		"obligations": len(res.Obs),
-		"discharged":  ok,
-		"evaluations": len(res.Obs),
+		"explanation":         meta.Explanation + "  NOT DECIDED (no static argument in reach): " + meta.NotDecided,
+		"obligations":         len(res.Obs),
+		"discharged":          ok,
+		"evaluations":         len(res.Obs),
 		"distinct_nontrivial": len(distinct),
-		"rule": "an obligation is one rule instance keyed by rule + enclosing function + resolved construct; it is non-trivial when the rule matched a real construct of /repo's current source (an undecided or floor obligation is not counted); distinct = distinct keys",
-		"samples":     samples,
-		"exhaustive":  true,
-		"rules":       res.Rules,
+		"rule":                "an obligation is one rule instance keyed by rule + enclosing function + resolved construct; it is non-trivial when the rule matched a real construct of /repo's current source (an undecided or floor obligation is not counted); distinct = distinct keys",
+		"samples":             samples,
+		"exhaustive":          true,
+		"rules":               res.Rules,
 		"analysed": map[string]any{
 			"repo": e.Dir, "packages_loaded": e.stats.Packages, "sm_functions": e.stats.Funcs,
 			"sm_ssa_instructions": e.stats.Instrs, "sm_calls_resolved": e.stats.CallsResolved, "sm_calls_dynamic": e.stats.CallsDynamic,
